@@ -70,6 +70,12 @@ def coverage_for(key):
         if "substring:sub" in key:
             return thm("no_panic_substring", "end_usize - start_usize is dominated by the test end_usize < start_usize")
         return unproved("not modelled")
+    if f.endswith("core/src/serialize/mod.rs"):
+        if "number_from_float:expect" in key:
+            return thm("no_panic_toml_import", "try_from_float_simplest(f).expect(..) fails on inf / nan only: check_floats, run before any conversion, visits every float the conversion visits (tables, arrays of tables, arrays, inline tables at any depth) and turns a non-finite one into a parse error")
+        if ":cast#" in key:
+            return thm("mk_span_id", "usize as u32: identity for offsets of sources shorter than 4 GiB")
+        return unproved("not modelled")
     if f.endswith("core/src/pretty.rs"):
         if "libcall" in key or "unwrap" in key:
             return thm("no_panic_pretty_print_cap_fixed", "char_indices().nth(max_width) is matched, not unwrapped, since 03ad279 (pretty_print_cap_panics: before that commit it panicked when bytes > max_width >= characters)")
@@ -145,7 +151,7 @@ From Coq Require Import List String Bool ZArith QArith.
 Import ListNotations.
 From NV Require Import Crash.Outcome Crash.NumOps Crash.NumOpsProofs Crash.Index Crash.IndexProofs
   Crash.Lexer Crash.LexerProofs Crash.Span Crash.SpanProofs Crash.NameReg Crash.NameRegProofs
-  Crash.Defects Crash.MergeDispatch Crash.MergeDispatchProofs Gen.PanicSites.
+  Crash.Defects Crash.MergeDispatch Crash.MergeDispatchProofs Crash.TomlFloats Crash.TomlFloatsProofs Gen.PanicSites.
 Open Scope string_scope.
 
 Inductive coverage : Type :=
